@@ -13,11 +13,11 @@ def run(tier, seed):
                    needs_items=('src_power', 'rhs_entry', 'load_diag', 'ff_k9', 'ff_t1', 'ff_t2', 'ff_t3', 'medium_imp'),
                    extra_vo=('Proofs/Energy.v', 'Proofs/FarFieldP.v', 'Model/FarField.v', 'Corr/FFDriver.v', 'Corr/LinDriver.v'))
     rng = random.Random(seed)
-    out, errs = stage_lin.run_stage(chk, rng, 24 if tier == 'quick' else 200)
+    out, errs = stage_lin.run_stage(chk, rng, 24 if tier == 'quick' else 800)
     for r, o, mt in out:
         chk.add_case(json.dumps(r['spec'], sort_keys=True), o['n'] > 1)
-    ff_cases(chk, rng, 24 if tier == 'quick' else 200, (None, 'ideal', 'real'))
-    nor = 16 if (tier == 'quick' and not chk.broken) else (48 if tier == 'quick' else 240)
+    ff_cases(chk, rng, 24 if tier == 'quick' else 800, (None, 'ideal', 'real'))
+    nor = 16 if (tier == 'quick' and not chk.broken) else (48 if tier == 'quick' else 960)
     run_oracle(chk, rng, nor, 'ff.c01_oracle', 'c01-oracle', (None, None, 'ideal', 'ideal', 'real'),
                probes=[os.path.join(ROOT, 'probes', 'C01-exact-kernel.json')])
     return chk.finish()
